@@ -145,6 +145,21 @@ fn biased_graph(max_rules: usize) -> impl Strategy<Value = GraphSpec>
                 r.multi_line = false;
             }
         }
+        if style % 8 == 2 && g.n_leaves == 2
+        {
+            // a rule with one target that never changes and two that trade places, and a dependent of the last one
+            g.rules[0].n_targets = 3;
+            g.rules[0].kinds = vec![3, 2, 2];
+            g.rules[0].failon = None;
+            g.rules[0].empty_cmd = false;
+            if g.rules.len() >= 2
+            {
+                // candidates of rule 1: l0, l1, t0, t1, t2
+                g.rules[1].srcs = vec![((4 * 65536 + 4) / 5) as u16];
+                g.rules[1].failon = None;
+                g.rules[1].empty_cmd = false;
+            }
+        }
         g
     })
 }
